@@ -98,6 +98,9 @@ func c13Alphabet() []respEnv {
 
 func runC13(r *Run) {
 	c13Surplus(r)
+	// a reply message reused across calls holds, after each successful call, what THAT call's envelope
+	// carried — also when that is the empty message (c01b.go)
+	c01ReusedReply(r)
 	alpha := c13Alphabet()
 	rng := r.Rand("c13")
 	var seqs [][]respEnv
